@@ -317,6 +317,45 @@ def names_n4(rep, d: Path) -> None:
         rep.extra.setdefault("tlc_law_violations", []).extend(res.violated)
 
 
+def cross_process_leg(rep, d: Path) -> None:
+    """Convergence does not depend on WHICH process generates: every command of a history runs in its own interpreter with its own string-hash
+    seed (as the CLI does), and regenerating over an earlier generation still equals a fresh generation made by yet another process.  The
+    documents carry constructs whose handling iterates over sets of strings (`required` naming several undeclared properties, several tags,
+    models referring to several others)."""
+    S = {"type": "string"}
+    R = lambda n: {"$ref": f"#/components/schemas/{n}"}
+    def doc(v: int) -> dict:
+        schemas = {f"Part{i}": {"type": "object", "properties": {"v": S}} for i in range(4)}
+        schemas["Inventory"] = {"type": "object", "required": ["sku", "ghost_b", "ghost_a", "ghost_d", "ghost_c"], "properties": {"sku": S, **{f"p{i}": R(f"Part{i}") for i in range(4)}}}
+        schemas["Order"] = {"allOf": [R("Inventory"), {"type": "object", "required": ["zeta", "alpha", "mid"], "properties": {"n": {"type": "integer"}}}]}
+        if v == 2:
+            schemas["Extra"] = {"type": "object", "properties": {"o": R("Order")}}
+        paths = {f"/o{v}": {"get": {"operationId": f"op{v}", "tags": ["b", "a", "c"], "responses": {"200": {"description": "d", "content": {"application/json": {"schema": R("Order")}}}}}}}
+        return gen.mkdoc(schemas=schemas, paths=paths, title="Cross Process")
+    root = d / "xproc"
+    root.mkdir()
+    for v in (1, 2):
+        (root / f"v{v}.json").write_text(json.dumps(doc(v)))
+    (root / "cfg.json").write_text(json.dumps({"post_hooks": [], "generate_all_tags": True}))
+    def run(out: str, v: int, hs: int, overwrite: bool):
+        args = ["generate", "--path", str(root / f"v{v}.json"), "--meta", "poetry", "--output-path", str(root / out), "--config", str(root / "cfg.json")] + (["--overwrite"] if overwrite else [])
+        return gen.cli(args, root, env={"PYTHONHASHSEED": str(hs)})
+    results = []
+    for k, (h1, h2, h3) in enumerate([(1, 2, 3), (4, 5, 6), (7, 0, 11)]):
+        c1 = run(f"work{k}", 1, h1, False)
+        c2 = run(f"work{k}", 2, h2, True)
+        c3 = run(f"fresh{k}", 2, h3, False)
+        rep.count(1, ("cross-process", k))
+        if c1[0] != 0 or c2[0] != 0 or c3[0] != 0:
+            rep.violate("C19/cross-process/command-fails", f"exit codes {c1[0]}, {c2[0]}, {c3[0]}: {(c1[1] + c2[1] + c3[1])[-300:]}")
+            return
+        a, b = gen.snapshot(root / f"work{k}"), gen.snapshot(root / f"fresh{k}")
+        diff = _diff(a, b)
+        if diff:
+            rep.violate("C19/cross-process/not-converged", f"regenerating in another process (hash seeds {h1}, {h2}) differs from a fresh generation (seed {h3}): {diff[:5]}", files=diff[:10])
+            return
+
+
 def run(rep) -> None:
     quick = rep.tier == "quick"
     rnd = random.Random(seed() * 1019 + 19)
@@ -357,6 +396,7 @@ def run(rep) -> None:
                 rep.drifted(mode="fstrace", why=why, history=chosen[tid - 1]["hist"])
         hostile_names(rep, d, quick)
         crash_leg(rep, d, quick, rnd)
+        cross_process_leg(rep, d)
         rep.sample({"history": chosen[0]["hist"], "model_tree": chosen[0]["present"], "model_exit": chosen[0]["code"]})
         rep.extra["histories_replayed"] = len(chosen)
     finally:
